@@ -875,13 +875,15 @@ def _check_run(res, c, sorted_mode, model_out, mo):
     the model run with keys compared as comma-joined texts) is reported under that root cause only."""
     n0 = len(res["viol"])
     got = _check_run0(res, c, sorted_mode, model_out, mo)
-    if len(res["viol"]) > n0 and got is not None and not sorted_mode and c["keyclass"] == "comma" \
+    new = res["viol"][n0:]
+    other = [v for v in new if v["sig"].get("sub") != "join-value-overwritten"]    # that one is judged without the model
+    if other and got is not None and not sorted_mode and c["keyclass"] == "comma" \
             and _comma_collision(c, mo):
         alt = _model_opts(c["o"])
         alt.joined = True
         if [rec for _, rec in join_model(c["L"], c["R"], alt)] == got:
-            first = res["viol"][n0]
-            del res["viol"][n0:]
+            first = other[0]
+            res["viol"][n0:] = [v for v in new if v not in other]
             add_violation(res, {"kind": "pairing", "sub": "comma-joined-key-collision", "mode": "u"},
                           "join on >= 2 fields treats distinct join-value tuples as equal when their comma-joined texts "
                           "are equal, e.g. (\"a,b\",\"c\") pairs with (\"a\",\"b,c\"); first symptom: " + first["what"][:300],
